@@ -104,22 +104,25 @@ Theorem C07_source_facts :
   trl_malformed_code = RFC_H3_MESSAGE_ERROR /\ trl_malformed_stop = Some RFC_H3_MESSAGE_ERROR /\
   trl_toobig_stores = false /\ trl_toobig_variant = VHeaderTooBig /\
   cli_trl_toobig_stop = Some RFC_H3_REQUEST_CANCELLED /\ trl_err_via_fse = true /\ trl_waits_for_end = true /\
-  send_trailers_err_via_hq = true /\ send_trailers_limit_cmp = true.
+  send_trailers_err_via_hq = true /\ send_trailers_limit_cmp = true /\ send_trailers_maps = true /\
+  (* the StreamTerminated / Unknown arms are one expression each (no branch, no other call); finish(): grease
+     write first, then poll_finish, both error mappings pass-through *)
+  hq_term_pure = true /\ hq_unknown_pure = true /\ hq_unknown_variant = VUndefined /\ finish_grease_first = true.
 Proof. repeat split; reflexivity. Qed.
 
 (* non-vacuity: a faulted and a healthy request interleaved *)
 Example C07_confined_inhabited :
-  let l := [({| c_role := Server; c_hsize := 42; c_body := [9]; c_trl := Some 36 |},
+  let l := [({| c_role := Server; c_hsize := 42; c_body := [9]; c_trl := Some 36; c_grease := true; c_unk := false |},
              [EHeaders HOk; EData 2 [1]; EMore [2]; EHeaders HOk; EFin]);
-            ({| c_role := Server; c_hsize := 42; c_body := []; c_trl := None |}, [EHeaders HOk; EData 3 [7]; EReset 77]);
-            ({| c_role := Server; c_hsize := 42; c_body := []; c_trl := None |},
+            ({| c_role := Server; c_hsize := 42; c_body := []; c_trl := None; c_grease := false; c_unk := false |}, [EHeaders HOk; EData 3 [7]; EReset 77]);
+            ({| c_role := Server; c_hsize := 42; c_body := []; c_trl := None; c_grease := false; c_unk := false |},
              [EHeaders HOk; EData 1 [5]; EHeaders HMalformed; EFin])] in
   let sched := [Open 0; Open 1; Open 2; Deliver 1; Deliver 0; Poll 1; Deliver 1; Deliver 0; Deliver 1; Poll 0; Poll 1;
                 Deliver 2; Deliver 2; Poll 2; Deliver 2; Deliver 2; Poll 2;
                 Deliver 0; Deliver 0; Deliver 0; Poll 0; Poll 0; Poll 0; Poll 0; Poll 0; DriverPoll] in
   in_class l /\ Forall (action_ok (fun _ => None) None false) sched /\
   map observe (reqs (run sched (init_world l))) =
-    [{| ob_out := OOk; ob_data := [1; 2]; ob_trl := true; ob_calls := [CFin]; ob_tx := [WHeaders 200; WData [9]; WTrailers] |};
+    [{| ob_out := OOk; ob_data := [1; 2]; ob_trl := true; ob_calls := [CFin]; ob_tx := [WHeaders 200; WData [9]; WTrailers; WGrease] |};
      {| ob_out := OStreamErr KRemoteTerminate (Some 77); ob_data := []; ob_trl := false; ob_calls := []; ob_tx := [] |};
      {| ob_out := OStreamErr KStreamError (Some 270); ob_data := [5]; ob_trl := false; ob_calls := [CStop 270]; ob_tx := [] |}].
 Proof.
@@ -132,7 +135,7 @@ Qed.
 Example C07_store_is_visible_inhabited :
   (* the model does distinguish: a connection-level fault (DATA before HEADERS) stores, the driver closes *)
   let w := run [Open 0; Deliver 0; Poll 0; DriverPoll]
-               (init_world [({| c_role := Server; c_hsize := 42; c_body := []; c_trl := None |}, [EData 1 [1]; EFin])]) in
+               (init_world [({| c_role := Server; c_hsize := 42; c_body := []; c_trl := None; c_grease := false; c_unk := false |}, [EData 1 [1]; EFin])]) in
   conn_quiet (observe_conn (sh w)) = false /\ closes (sh w) = [H3_FRAME_UNEXPECTED].
 Proof. vm_compute. split; reflexivity. Qed.
 
